@@ -156,6 +156,14 @@ def gen_script(rnd, nsess, length):
                     for op in rnd.sample(["simulate ni{space}", "simulate hao{space}", "key 110 0", "set_option verif_x 1", "set_option ascii_punct 1",
                                           "set_property p1 left", "key 34 0", "set_option full_shape 1", "simulate zhong"], rnd.randint(1, 4)):
                         lines.append("%d %s" % (lg, op))
+                # round 4: what the session typed last is remembered in its commit history (a number typed while idle or in ascii
+                # mode makes the next , . : ' a digit separator); a session created afterwards must not inherit that memory
+                number_left = rnd.random() < 0.5
+                if number_left:
+                    lines.append("%d clear" % lg)
+                    for op in rnd.choice([["key 51 0"], ["key 49 0", "key 50 0"], ["set_option ascii_mode 1", "key 109 0", "key 112 0", "key 51 0"],
+                                          ["simulate ni{space}", "key 55 0"]]):
+                        lines.append("%d %s" % (lg, op))
                 lines.append("%d destroy" % lg)
                 live[lg] = False
                 if rnd.random() < 0.7:
@@ -166,6 +174,9 @@ def gen_script(rnd, nsess, length):
                     ever.add(nk)
                     for op in PROBE_READS:
                         lines.append("%d %s" % (nk, op))
+                    if number_left or rnd.random() < 0.3:
+                        for op in ("key %d 0" % rnd.choice([46, 44, 58, 39]), "get_context", "get_commit", "key 97 0", "get_context"):
+                            lines.append("%d %s" % (nk, op))
             elif r < 0.10:
                 lines.append("%d find" % lg)
             elif r < 0.115:
@@ -213,11 +224,60 @@ def gen_script(rnd, nsess, length):
                         for _ in range(rnd.choice([1, 1, 2, 3])):
                             lines.append("%d key %d 0" % (k, key))
                             lines.append("%d get_commit" % k)
+                # round 4: sessions on different schemas share dictionary objects (luna_pinyin's reverse lookup reads cangjie5's
+                # prism and table; luna_zcs shares luna_pinyin's table): one session looks a code up one way, another session
+                # types the same code its own way and pages deep into the list
+                others = sorted(k for k, v in live.items() if v and k != lg)
+                if others and rnd.random() < 0.10:
+                    o = rnd.choice(others)
+                    code = rnd.choice(["o", "a", "on", "hq", "ab", "m", "yk"])
+                    lines.append("%d select_schema luna_pinyin" % lg)
+                    lines.append("%d select_schema cangjie5" % o)
+                    lines += ["%d clear" % lg, "%d simulate `%s" % (lg, code), "%d get_context" % lg]
+                    for _ in range(rnd.choice([0, 1, 3])):
+                        lines += ["%d key %d 0" % (lg, XK["Page_Down"]), "%d get_context" % lg]
+                    lines += ["%d clear" % o, "%d simulate %s" % (o, code), "%d get_context" % o]
+                    for _ in range(rnd.choice([1, 2, 4, 8])):
+                        lines += ["%d key %d 0" % (o, XK["Page_Down"]), "%d get_context" % o]
+                    lines += ["%d clear" % o, "%d clear" % lg]
                 # let the OTHER live sessions look at everything a leak could show up in
                 if rnd.random() < 0.35:
                     for other in sorted(k for k, v in live.items() if v and k != lg):
                         for op in PROBE_READS:
                             lines.append("%d %s" % (other, op))
+    return lines
+
+
+def gen_pattern_script(rnd, which):
+    """short scripts aimed at one sharing channel each (round 4): 'history' - a destroyed session's commit history (a number typed
+    last) must not reach the session created next; 'dict' - sessions on different schemas share prism/table objects (reverse lookup,
+    a schema with its own prism over another's table): deep paging after another session's lookup of the same code"""
+    lines = []
+    if which == "history":
+        for rounds in range(rnd.randint(2, 4)):
+            a, b = rnd.sample([1, 2, 3], 2)
+            lines.append("%d create" % a)
+            if rnd.random() < 0.5:
+                lines.append("%d select_schema %s" % (a, rnd.choice(SCHEMAS)))
+            for op in rnd.choice([["key 51 0"], ["key 49 0", "key 50 0"], ["set_option ascii_mode 1", "key 109 0", "key 112 0", "key 51 0"],
+                                  ["simulate ni{space}", "get_commit", "key 55 0"], ["simulate ni{space}"], []]):
+                lines.append("%d %s" % (a, op))
+            lines.append("%d destroy" % a)
+            lines.append("%d create" % b)
+            for op in ("key %d 0" % rnd.choice([46, 44, 58, 39]), "get_context", "get_commit", "key 97 0", "get_context", "get_commit"):
+                lines.append("%d %s" % (b, op))
+            lines.append("%d destroy" % b)
+    else:
+        lines += ["1 create", "2 create", "1 select_schema %s" % rnd.choice(["luna_pinyin", "luna_zcs"]), "2 select_schema cangjie5"]
+        for rounds in range(rnd.randint(2, 4)):
+            code = rnd.choice(["o", "a", "on", "hq", "ab", "m", "yk", "e"])
+            lines += ["1 clear", "1 simulate `%s" % code, "1 get_context"]
+            for _ in range(rnd.choice([0, 1, 3])):
+                lines += ["1 key %d 0" % XK["Page_Down"], "1 get_context"]
+            lines += ["2 clear", "2 simulate %s" % code, "2 get_context"]
+            for _ in range(rnd.choice([2, 4, 8])):
+                lines += ["2 key %d 0" % XK["Page_Down"], "2 get_context"]
+        lines += ["1 clear", "2 clear"]
     return lines
 
 
@@ -312,6 +372,9 @@ def run(ctx):
     rnd = random.Random(ctx.seed * 7919 + 16)
     nscripts, length = (10, 90) if ctx.tier == "quick" else (60, 160)
     scripts = [gen_script(rnd, rnd.randint(2, 5), length) for _ in range(nscripts)]
+    npat = 3 if ctx.tier == "quick" else 20
+    scripts += [gen_pattern_script(rnd, w) for w in ("history", "dict") for _ in range(npat)]
+    ctx.coverage["pattern_scripts"] = {"inherited_commit_history": npat, "shared_dictionary_objects": npat}
     # corpus first
     cdir = os.path.join(vlib.VERIF, "corpus", "C16")
     if os.path.isdir(cdir):
